@@ -103,3 +103,16 @@ pub fn hashmap_keys_set<V>(m: &HashMap<u64, V>) -> (r: BTreeSet<u64>)
 pub fn btreeset_is_subset(a: &BTreeSet<u64>, b: &BTreeSet<u64>) -> (r: bool)
     ensures r == a@.subset_of(b@)
 { a.is_subset(b) }
+// X.iter_mut().find(C): first element satisfying C, as a mutable reference into the vector (prophecy-style contract)
+#[verifier::external_body]
+pub fn iter_mut_find<'a, T, F: Fn(&T) -> bool>(v: &'a mut Vec<T>, f: F) -> (r: Option<&'a mut T>)
+    requires forall|i: int| 0 <= i < old(v).len() ==> f.requires((&#[trigger] old(v)[i],))
+    ensures
+        final(v).len() == old(v).len(),
+        r is None ==> *final(v) == *old(v) && forall|j: int| 0 <= j < old(v).len() ==> f.ensures((&#[trigger] old(v)[j],), false),
+        r is Some ==> exists|i: int| #![trigger old(v)[i]] 0 <= i < old(v).len() && *r->Some_0 == old(v)[i] && final(v)@ == old(v)@.update(i, *final(r->Some_0))
+            && f.ensures((&old(v)[i],), true) && forall|j: int| 0 <= j < i ==> f.ensures((&#[trigger] old(v)[j],), false),
+{ v.iter_mut().find(|x| f(&**x)) }
+// `x as f64` for u64 (exact below 2^53; A1)
+#[verifier::external_body]
+pub fn u64_as_f64(x: u64) -> (r: F64) ensures r@ == XR::Fin(x as real) { F64 { v: x as f64 } }
